@@ -5,7 +5,7 @@ import importlib
 import sys
 import traceback
 
-MODULES = ["vlib.refsvg.test_pathgrammar", "vlib.refsvg.test_arcref", "vlib.refsvg.test_geom", "vlib.refsvg.test_render"]
+MODULES = ["vlib.refsvg.test_pathgrammar", "vlib.refsvg.test_arcref", "vlib.refsvg.test_geom", "vlib.refsvg.test_render", "vlib.refsvg.test_gradient"]
 
 
 def main():
